@@ -6,6 +6,7 @@ import (
 	"errors"
 	"fmt"
 	"io"
+	"math/rand"
 	"os"
 	"os/exec"
 	"runtime"
@@ -175,6 +176,165 @@ func raceChild() {
 	os.Exit(0)
 }
 
+
+// ---------------------------------------------------------------- hand-off (retention) runs
+
+// renderSeq is the canonical rendering of one delivered sequence (a deep copy: nothing of the
+// sequence's storage is kept), merged into items the way parsehx does (consecutive Prints join).
+func renderSeq(items []parsehx.Item, seq ansi.Sequence) []parsehx.Item {
+	r64 := func(rs []rune) []int64 {
+		out := make([]int64, len(rs))
+		for i, r := range rs {
+			out[i] = int64(r)
+		}
+		return out
+	}
+	switch s := seq.(type) {
+	case ansi.Print:
+		n := len(items)
+		if n > 0 && items[n-1].Kind == "print" {
+			items[n-1].Runes = append(items[n-1].Runes, r64([]rune(s.Grapheme))...)
+			return items
+		}
+		return append(items, parsehx.Item{Kind: "print", Runes: r64([]rune(s.Grapheme))})
+	case ansi.C0:
+		return append(items, parsehx.Item{Kind: "c0", Final: int64(s)})
+	case ansi.ESC:
+		return append(items, parsehx.Item{Kind: "esc", Inter: r64(s.Intermediate), Final: int64(s.Final)})
+	case ansi.SS3:
+		return append(items, parsehx.Item{Kind: "ss3", Final: int64(s)})
+	case ansi.CSI:
+		it := parsehx.Item{Kind: "csi", Inter: r64(s.Intermediate), Final: int64(s.Final)}
+		for _, ps := range s.Parameters {
+			var sub []int64
+			for _, v := range ps {
+				sub = append(sub, int64(v))
+			}
+			it.PS = append(it.PS, sub)
+		}
+		return append(items, it)
+	case ansi.OSC:
+		return append(items, parsehx.Item{Kind: "osc", Data: r64(s.Payload)})
+	case ansi.DCS:
+		it := parsehx.Item{Kind: "dcs", Inter: r64(s.Intermediate), Final: int64(s.Final), Data: r64(s.Data)}
+		for _, v := range s.Parameters {
+			it.DP = append(it.DP, int64(v))
+		}
+		return append(items, it)
+	case ansi.APC:
+		return append(items, parsehx.Item{Kind: "apc", Data: r64([]rune(s.Data))})
+	}
+	return append(items, parsehx.Item{Kind: fmt.Sprintf("unknown %T", seq)})
+}
+
+// runKeep feeds the chunks (no pauses) to a fresh parser.  The consumer keeps sequence number i
+// without Finish when keep(i), hands it back at once otherwise, and waits lag before every
+// receive so that the parser runs ahead as far as its channel lets it.  Every kept sequence is
+// deep-copied on delivery and compared with what it reads as after the parser stopped.
+func runKeep(chunks [][]byte, keep func(i int) bool, lag time.Duration, timeout time.Duration) parsehx.Result {
+	var res parsehx.Result
+	for attempt := 0; attempt <= hx.TimerEscRetries; attempt++ {
+		var timerEsc bool
+		res, timerEsc = runKeepOnce(chunks, keep, lag, timeout)
+		if !timerEsc || res.Hung {
+			break
+		}
+	}
+	return res
+}
+
+func runKeepOnce(chunks [][]byte, keep func(i int) bool, lag time.Duration, timeout time.Duration) (res parsehx.Result, timerEsc bool) {
+	p := ansi.NewParser(&parsehx.ChunkReader{Chunks: chunks})
+	type retained struct {
+		seq  ansi.Sequence
+		copy string
+	}
+	var kept []retained
+	done := make(chan struct{})
+	go func() {
+		defer close(done)
+		defer func() {
+			if r := recover(); r != nil {
+				res.Panic = fmt.Sprint(r)
+			}
+		}()
+		i := 0
+		for {
+			if lag > 0 {
+				time.Sleep(lag)
+			}
+			seq, ok := <-p.Next()
+			if !ok {
+				break
+			}
+			if res.EOFs > 0 {
+				res.AfterEOF++
+			}
+			if _, isEOF := seq.(ansi.EOF); isEOF {
+				res.EOFs++
+				continue
+			}
+			if _, isErr := seq.(error); isErr {
+				continue
+			}
+			if hx.IsTimerEsc(seq) {
+				timerEsc = true
+			}
+			res.Items = renderSeq(res.Items, seq)
+			if keep(i) {
+				kept = append(kept, retained{seq, fmt.Sprintf("%#v", seq)})
+			} else {
+				p.Finish(seq)
+			}
+			i++
+		}
+		res.Closed = true
+	}()
+	select {
+	case <-done:
+	case <-time.After(timeout):
+		res.Hung = true
+		return res, timerEsc
+	}
+	for _, k := range kept {
+		if now := fmt.Sprintf("%#v", k.seq); now != k.copy {
+			res.Mutated = fmt.Sprintf("delivered %s, later reads %s", k.copy, now)
+			break
+		}
+	}
+	return res, timerEsc
+}
+
+func pick(r *rand.Rand, xs ...string) string { return xs[r.Intn(len(xs))] }
+
+// carrier: a random sequence of one of the kinds that hand a buffer to the consumer, with or
+// without private marker / intermediates / parameters / data
+func carrier(r *rand.Rand) string {
+	fin := func() string { return string(rune(0x40 + r.Intn(0x3f))) }
+	params := func(sub bool) string {
+		if sub {
+			return pick(r, "", "", "0", "1", "1;2", "38:2:1:2:3", ";", "1;;3", "4:3;58:5:1", "9;8;7;6;5;4;3")
+		}
+		return pick(r, "", "", "0", "1", "1;2", ";", "1;;3", "9;8;7;6;5;4;3")
+	}
+	inter := func() string { return pick(r, "", "", " ", "$", "#", "!\"", " !") }
+	priv := func() string { return pick(r, "", "", "?", ">", "<", "=") }
+	data := func() string { return pick(r, "", "d", "data-data", "0123456789012345678901234567890123456789") }
+	term := func() string { return pick(r, "\x1b\\", "\x1b\\", "\x1b\\", "\x18", "\x1a") }
+	switch r.Intn(5) {
+	case 0:
+		return "\x1b" + inter() + string(rune(0x30+r.Intn(0x4f)))
+	case 1:
+		return "\x1b[" + priv() + params(true) + inter() + fin()
+	case 2:
+		return "\x1bP" + priv() + params(false) + inter() + fin() + data() + term()
+	case 3:
+		return "\x1b]" + data() + pick(r, "\x07", term())
+	default:
+		return "\x1b_" + data() + term()
+	}
+}
+
 func main() {
 	if os.Getenv("C08_CHILD") == "close-esc" {
 		closeWithEsc()
@@ -246,6 +406,91 @@ func main() {
 				trunc.Add(hx.Tuple(parsehx.CoqSegments([][]byte{stream}), parsehx.CoqItems(res.Items, res.EOFs)), js, true, "retain-pair")
 			}
 		}
+	}
+
+	// 1c. hand-off classes: every buffer-carrying kind x with/without private marker x
+	// with/without intermediates x with/without parameters (data), kept without Finish by a
+	// consumer that lags behind, followed by every kind of sequence that collects
+	// intermediates / parameters / data (complete, cut by the end of input, cancelled)
+	var firsts []string
+	for _, in := range []string{"", " ", "#", "( "} {
+		firsts = append(firsts, "\x1b"+in+"B")
+	}
+	for _, pv := range []string{"", "?", ">"} {
+		for _, ps := range []string{"", "1", "1;2:3"} {
+			for _, in := range []string{"", "$", " !"} {
+				firsts = append(firsts, "\x1b["+pv+ps+in+"u")
+			}
+		}
+	}
+	for _, pv := range []string{"", "?"} {
+		for _, ps := range []string{"", "1;2"} {
+			for _, in := range []string{"", "$"} {
+				for _, d := range []string{"", "dcs-data-one"} {
+					firsts = append(firsts, "\x1bP"+pv+ps+in+"q"+d+"\x1b\\")
+				}
+			}
+		}
+	}
+	firsts = append(firsts, "\x1b]\x07", "\x1b]1\x07", "\x1b]8;;http://example.com\x1b\\", "\x1b_\x1b\\", "\x1b_Gapc-payload-one\x1b\\")
+	followers := []string{"\x1b(B", "\x1b[>c", "\x1b[>1;2c", "\x1b[ q", "\x1b[5;6H", "\x1bP>7;8+rzz\x1b\\", "\x1bPpzzzzzzzzzzzzzzzz\x1b\\",
+		"\x1b]2;zzzzzzzzzzzzzzzz\x07", "\x1b_Zzzzzzzzzzzzzzzzz\x1b\\", "\x1b[=9;9", "\x1b*", "\x1b[<7$\x18", "\x1bP=1+", "\x1b]zz", "\x1bXzz\x1b\\\x1b%G"}
+	keepAll := func(int) bool { return true }
+	addKeep := func(stream []byte, chunks [][]byte, keep func(int) bool, lag time.Duration, kind, tag string) {
+		res := runKeep(chunks, keep, lag, 5*time.Second)
+		js := caseJSON{Segments: [][]int{ints(stream)}, End: "eof", Items: res.Items, EOFs: res.EOFs, Kind: kind}
+		if !lifecycle(res, js) {
+			return
+		}
+		trunc.Add(hx.Tuple(parsehx.CoqSegments([][]byte{stream}), parsehx.CoqItems(res.Items, res.EOFs)), js, true, tag)
+	}
+	for i, a := range firsts {
+		for j, b := range followers {
+			stream := []byte(a + b)
+			if (i+j)%3 == 0 {
+				stream = append(stream, "x\x1b[?u\x1b(0"...)
+			}
+			lag := time.Duration(0)
+			if (i+j)%2 == 0 {
+				lag = 300 * time.Microsecond
+			}
+			addKeep(stream, [][]byte{stream}, keepAll, lag, "retain-class", "retain-class")
+		}
+	}
+	// random: carriers mixed with arbitrary elements, any read chunking, consumers that keep
+	// all / every other / a random half of the sequences and hand the rest back at once
+	nKeep := 150
+	if cfg.Thorough() {
+		nKeep = 4000
+	}
+	for i := 0; i < nKeep; i++ {
+		var b []byte
+		for k := 2 + cfg.Rand.Intn(5); k > 0; k-- {
+			if cfg.Rand.Intn(4) == 0 {
+				e, _ := parsehx.Element(cfg.Rand)
+				b = append(b, e...)
+			} else {
+				b = append(b, carrier(cfg.Rand)...)
+			}
+		}
+		chunks := [][]byte{b}
+		if cfg.Rand.Intn(3) == 0 {
+			cs := parsehx.Chunkings(cfg.Rand, b, 3)
+			chunks = cs[cfg.Rand.Intn(len(cs))]
+		}
+		mask := cfg.Rand.Uint64()
+		var keep func(int) bool
+		policy := ""
+		switch cfg.Rand.Intn(3) {
+		case 0:
+			keep, policy = keepAll, "keep-all"
+		case 1:
+			keep, policy = func(i int) bool { return i%2 == 0 }, "keep-every-other"
+		default:
+			keep, policy = func(i int) bool { return mask>>(uint(i)%64)&1 == 1 }, "keep-random-half"
+		}
+		lag := time.Duration(cfg.Rand.Intn(3)) * 150 * time.Microsecond
+		addKeep(b, chunks, keep, lag, "retain-random "+policy, "retain-random")
 	}
 
 	// 2. Escape timing: segments separated by real silence (40 ms >> the 10 ms timer)
@@ -427,6 +672,6 @@ func main() {
 				true, "child")
 		}
 	}
-	cfg.Write("C08", "race: child processes stress ESC followed about 10 ms later by the end of input or by \"[A\" (a send on the closed channel panics the child; a late callback garbles ESC [ A); truncate: grammar-generated streams cut at EVERY byte offset, ended by EOF or by a read error (alternating), read in one or two chunks, half of the runs retaining every delivered sequence without Finish (deep copies compared at the end); timing: heads that leave the parser in each kind of state, then ESC, then 40 ms of real silence, then a tail (majority of up to three runs because real time is involved); close: Close() on a parser blocked in a read whose reader then returns forever. non-trivial = strictly inside the stream / any timing case",
+	cfg.Write("C08", "race: child processes stress ESC followed about 10 ms later by the end of input or by \"[A\" (a send on the closed channel panics the child; a late callback garbles ESC [ A); truncate: grammar-generated streams cut at EVERY byte offset, ended by EOF or by a read error (alternating), read in one or two chunks, half of the runs retaining every delivered sequence without Finish (deep copies compared at the end); retain-pair / retain-class / retain-random: sequences of every buffer-carrying kind with and without private marker, intermediates, parameters and data, kept without Finish (all, every other, a random half) by a consumer that may lag behind, followed by sequences that collect intermediates / parameters / data (complete, cut by the end of input, cancelled), deep copies taken on delivery compared with the kept originals at the end; timing: heads that leave the parser in each kind of state, then ESC, then 40 ms of real silence, then a tail (majority of up to three runs because real time is involved); close: Close() on a parser blocked in a read whose reader then returns forever. non-trivial = strictly inside the stream / any timing case",
 		[]*hx.Stream{trunc, timing, race}, map[string]interface{}{"timing_cases_needing_third_run": unstable, "close_runs": closeRuns}, direct)
 }
